@@ -403,6 +403,84 @@ class Pipeline:
         # compiler/link editor killed, timed out or out of resources: not a statement about the headers
         return bool(rc < 0 or INFRA_PAT.search(out or ''))
 
+    # ---- stage: the client's own surroundings: language dialect, feature-test macros, system headers included first
+    DIALECTS = [
+        ('c99-posix-std-headers-first', ['-std=c99', '-pedantic-errors', '-D_POSIX_C_SOURCE=199309L'], True),
+        ('c99-gnu-source', ['-std=c99', '-D_GNU_SOURCE'], False),
+        ('c99-gnu-source-std-headers-first', ['-std=c99', '-D_GNU_SOURCE'], True),
+        ('c99-default-source', ['-std=c99', '-D_DEFAULT_SOURCE'], True),
+        ('gnu99', ['-std=gnu99'], True),
+        ('c11', ['-std=c11', '-pedantic-errors'], True),
+        ('gnu11-compiler-default', [], True),
+        ('gnu17', ['-std=gnu17', '-D_XOPEN_SOURCE=700'], True),
+    ]
+    STD_HEADERS = ['assert.h', 'complex.h', 'ctype.h', 'errno.h', 'fenv.h', 'float.h', 'inttypes.h', 'iso646.h', 'limits.h',
+                   'locale.h', 'math.h', 'setjmp.h', 'signal.h', 'stdarg.h', 'stdbool.h', 'stddef.h', 'stdint.h', 'stdio.h',
+                   'stdlib.h', 'string.h', 'tgmath.h', 'time.h', 'wchar.h', 'wctype.h',
+                   'sys/types.h', 'unistd.h', 'pthread.h', 'strings.h', 'sched.h']
+
+    def stage_dialects(self):
+        """The property is about C99 programs in general, not about programs compiled exactly like the project itself:
+        each header alone and all together must also compile (syntax check, -Wall -Wextra) when the client selects
+        another feature-test macro or dialect that gcc accepts for C99-compatible code, and when the standard C99 (and
+        the common POSIX) headers have been included BEFORE the cstl header: an identifier used by a cstl header that
+        a standard header defines as a macro (complex, I, bool, and, or, ...), or a helper that clashes with a
+        declaration glibc only makes visible under _DEFAULT_SOURCE/_GNU_SOURCE, breaks such clients only."""
+        inc = os.path.join(self.scratch, 'include')
+        d = os.path.join(self.broot, 'dialects')
+        os.makedirs(d, exist_ok=True)
+        sets = [(hname(h), (h,)) for h in self.headers] + [('all', tuple(self.headers))]
+        jobs = []
+        for nm, hs in sets:
+            for dn, flags, std_first in self.DIALECTS:
+                jobs.append((nm, hs, dn, flags, std_first))
+
+        def one(job):
+            nm, hs, dn, flags, std_first = job
+            src = os.path.join(d, '%s.%s.c' % (nm, dn))
+            with open(src, 'w') as f:
+                f.write('/* verif C18: %s under %s */\n' % (nm, dn))
+                if std_first:
+                    f.write(''.join('#include <%s>\n' % x for x in self.STD_HEADERS))
+                f.write(''.join('#include "cstl/%s"\n' % h for h in hs))
+                f.write('int c18_dialect_anchor;\n')
+            cmd = ['gcc', '-Wall', '-Wextra'] + flags + ['-I' + inc, '-fsyntax-only', src]
+            rc, out = sh(cmd)
+            return job, cmd, rc, out
+        with ThreadPoolExecutor(max_workers=WORKERS) as ex:
+            results = list(ex.map(one, jobs))
+        # a control: the standard headers alone must compile under every dialect (otherwise the dialect is not usable here)
+        usable = {}
+        for dn, flags, std_first in self.DIALECTS:
+            src = os.path.join(d, 'control.%s.c' % dn)
+            with open(src, 'w') as f:
+                if std_first:
+                    f.write(''.join('#include <%s>\n' % x for x in self.STD_HEADERS))
+                f.write('int c18_dialect_anchor;\n')
+            rc, out = sh(['gcc', '-Wall', '-Wextra'] + flags + ['-fsyntax-only', src])
+            usable[dn] = rc == 0
+            if rc != 0:
+                self.count('dialects.unusable-on-this-machine')
+        for (nm, hs, dn, flags, std_first), cmd, rc, out in results:
+            self.vlog(' '.join(cmd), rc, out)
+            if not usable[dn]:
+                continue
+            if rc == 0:
+                self.count('dialects.compiled')
+                if std_first:
+                    self.count('dialects.compiled.std-headers-first')
+            elif self.is_infra(rc, out):
+                self.infra.append('compiler failure (not a diagnostic) on %s under %s: %s' % (nm, dn, out[-300:]))
+            else:
+                self.count('dialects.compile-failed')
+                key = 'compile.error.dialect.%s.%s' % (dn, hname(hs[0]) if len(hs) == 1 else 'all')
+                self.violate(key, 'a client that includes %s%s does not compile with gcc %s (%s)'
+                             % ('the standard headers and then ' if std_first else '', ' '.join('"cstl/%s"' % h for h in hs),
+                                ' '.join(flags) or '(default dialect)', self.first_error(out)),
+                             -1, ' '.join(cmd), out,
+                             {'client': 'dialect', 'kind': dn, 'headers': list(hs), 'desc': 'dialect %s: %s' % (dn, hjoin(hs))},
+                             cls='compile-dialect-' + dn, hs=hs)
+
     # ---- stage: bare includes + aux-info
     def stage_bare(self):
         """compile `#include "cstl/x.h"` alone (per header) and all together with -aux-info"""
@@ -968,6 +1046,7 @@ class Pipeline:
                 return
             os.makedirs(self.broot, exist_ok=True)
             self.stage_bare()
+            self.stage_dialects()
             self.enumerate()
             self.ncases = len(self.configs)
             self.stage_compile()
